@@ -46,6 +46,9 @@ def expected_model(c):
         return go
     if op in ("avopen", "avstale"):
         return " ".join(go.split(" ")[:3])          # averr=.. closed=.. next=..
+    if op == "trlate":
+        # the harness's own verdicts with the detail after BAD stripped
+        return " ".join(x.split(":")[0] for x in go.split(" "))
     return "skip"
 
 
@@ -61,10 +64,10 @@ def setup():
     L.ocaml_build("c06")
 
 
-def run_harness(ctx, n, big, av=4, seed=None):
+def run_harness(ctx, n, big, av=4, seed=None, late=None):
     gobin = L.go_build("c06")
     rc, out, err, dt = L.sh([gobin, "-seed", str(seed if seed is not None else ctx.seed), "-n", str(n),
-                             "-big", str(big), "-av", str(av)], timeout=1500)
+                             "-big", str(big), "-av", str(av), "-late", str(late if late is not None else ctx.scale(24, 300))], timeout=1500)
     if rc != 0:
         raise L.Fail("correspondence", "harness cmd/c06 crashed", (out[-1500:] + err[-2500:]))
     return out, dt
@@ -115,6 +118,23 @@ def correspondence(ctx):
                                      what="bytes left over from an abandoned ApiVersions exchange were delivered to the next call as its response",
                                      detail=c["line"][:400] + " -> " + c["go"][:200], input=inp))
                 continue
+        if c["op"] == "trlate" and not c["go"].startswith(("HANG", "SETUP")):
+            # verdicts of the monitors extracted from Model/TransportPool.v (mon_delivery / mon_ids / mon_fail)
+            # on the recorded wire journal; the harness's own evaluation must agree (checked below)
+            mv = dict(x.split("=") for x in (m or "").split(" ") if "=" in x)
+            gv = dict(x.split("=", 1) for x in c["go"].split(" ") if "=" in x)
+            bad = [k for k in ("deliv", "ids", "fail") if mv.get(k) == "BAD" or gv.get(k, "ok") != "ok"]
+            if bad:
+                what = {
+                    "deliv": "a Transport call received the answer to ANOTHER call's request (late response of an abandoned exchange delivered to the next call on the pooled connection)",
+                    "ids": "a correlation id was used twice on one transport connection (ids on a connection must be strictly increasing: C06_pool_ids_increasing)",
+                    "fail": "a transport connection carried another request after one of its exchanges had failed (C06_pool_failed_conn_final)",
+                }
+                failures.append(dict(layer="property", key=None,
+                                     what="; ".join(what[k] for k in bad),
+                                     detail=c["line"][:900] + " -> " + c["go"][:200] + " | monitor: " + str(m), input=inp))
+                if m == want:
+                    continue
         if c["go"].startswith("HANG"):
             if "dup" in c["feats"].split(","):
                 livelocks.append(inp)      # observation only, see notes (liveness is outside C06)
@@ -157,7 +177,7 @@ def correspondence(ctx):
                      "deadline, ctx cancel / deadline) checked by linearisation search against the extracted model (projection: order of requests "
                      "at the broker, order of complete answer frames per connection, outcome class per call); muxbig / trbig = 2-16 goroutines x "
                      "3-10 payload-tagged calls, predicate only (every returned value carries the caller's tag, every failure is an error); "
-                     "avopen / avstale = regression of the former ApiVersions defect (time-out inside the body must close; no left-over bytes delivered).  non-trivial = anything but a single undisturbed call",
+                     "trlate = one Transport call whose context deadline expires mid-exchange, the broker answers LATE (released by the next request on that connection / timed), 1-3 followers of the same connection group (fc, lo, of) within the idle timeout; the whole wire journal (conn, correlation id per request and answer frame) and the call results go through the monitors extracted from Model/TransportPool.v (mon_delivery, mon_ids, mon_fail);  avopen / avstale = regression of the former ApiVersions defect (time-out inside the body must close; no left-over bytes delivered).  non-trivial = anything but a single undisturbed call",
                 samples=[c["line"][:260] + " | " + c["go"][:100] for c in cases[:2] + cases[len(cases)//3:len(cases)//3+2]
                          + cases[2*len(cases)//3:2*len(cases)//3+2] + cases[-2:]],
                 extra=dict(per_op=per_op, tagged_calls_ok=ok_calls, tagged_calls_err=err_calls,
